@@ -102,6 +102,15 @@ func Run(c *hx.Ctx) {
 	c.Rng = c.Rng.Fork()
 	log.DefaultLogger.SetLogLevel(log.FATAL)
 	log.Proxy.SetLogLevel(log.FATAL)
+	if len(c.Args) >= 2 && c.Args[0] == "only" { // debugging aid
+		switch c.Args[1] {
+		case "h2up":
+			h2upCases(c)
+		case "hpackx":
+			hpackxCases(c)
+		}
+		return
+	}
 	seen := map[string]bool{}
 	dec := func(proto string, data []byte, how string) {
 		k := proto + string(data)
@@ -200,6 +209,11 @@ func Run(c *hx.Ctx) {
 	h2Malformed(c)
 	// HPACK primitives through the real decoder
 	hpackCases(c)
+	// table references at the varint boundaries: sequences of blocks on one decoder, and inside HEADERS frames
+	hpackxCases(c)
+	h2IndexFrames(c)
+	// upstream side: stream-error frames for an in-flight request on the real HTTP/2 client stream connection
+	h2upCases(c)
 	// the header block decoder alone
 	seenKv := map[string]bool{}
 	kv := func(b []byte, how string) {
